@@ -246,3 +246,32 @@ def huge_cases(dss, configs, flags=(0, 1), namings=("ints", "letters")):
                             "sch2": [list(s2[0]), list(s2[1])], "H": HUGE_H, "cfg": cfg, "flag": f, "env": "nocplex",
                             "kseed": k})
     return out
+
+
+def scaled_cases(dss, configs, schemes, uexp, flags=(1,), namings=("ints", "letters"), every=None):
+    """same as cases() but the penalties given to the library are q * 2**(-uexp) (uexp = 40: ~1e-12, uexp = -70:
+    ~1e21): magnitudes far outside TLC's integers, which only sees the integers q (all clauses used on these
+    cases are invariant under scaling of the scheme)"""
+    out = cases(dss, configs, [(B, T, 1) for (B, T, _) in schemes], flags=flags, namings=list(namings), every=every)
+    for c in out:
+        c["uexp"] = uexp
+    return out
+
+
+def cycle_plus_sparse(rng):
+    """cycle_plus with 2-3 extra rankings that rank only the outside elements: several rankings miss the whole
+    non-trivial component"""
+    D = cycle_plus(rng)
+    U = grids.universe(D)
+    first, last = D[0][0], D[0][-1]
+    outside = first if len(first) > 1 or first[0] in (1, 2) and len(D[0]) > 4 else last
+    k = len([b for b in D[0]])
+    # outside elements: those not in the rotating block (the block has 3-4 singletons that change place)
+    fixed = [e for e in U if all(grids.dom(r) and [b for b in r if e in b][0] == [b for b in D[0] if e in b][0] and
+                                 r.index([b for b in r if e in b][0]) == D[0].index([b for b in D[0] if e in b][0])
+                                 for r in D)]
+    if not fixed:
+        return D
+    for _ in range(rng.randint(2, 3)):
+        D.append([[e] for e in fixed] if rng.random() < .5 else [sorted(fixed)])
+    return D
